@@ -276,6 +276,8 @@ def check(pid, tier, seed, keep=False):
     distinct = sum(count_distinct(a) for a in hashes.values())
     viols = list(merged["violations"].values())
     newdir = os.path.join(VERIF, "replays", pid, "new")
+    if os.environ.get("VF_NO_EVIDENCE"):
+        newdir = os.path.join(tempfile.gettempdir(), "vf-mutant-replays", pid)
     lines = []
     for v in viols:
         os.makedirs(newdir, exist_ok=True)
@@ -306,7 +308,8 @@ def check(pid, tier, seed, keep=False):
                violation_signatures=sorted(v["sig"] for v in viols), infrastructure=infra[:5])
     ev = dict(property_id=pid, tier=tier, seed=seed, level="exploration", coverage=cov,
               assumptions=cfg["assumptions"], wall_s=round(time.time() - t0, 2), violations=len(viols))
-    open(evidence_path, "w").write(json.dumps(ev, indent=1, ensure_ascii=False) + "\n")
+    if not os.environ.get("VF_NO_EVIDENCE"):
+        open(evidence_path, "w").write(json.dumps(ev, indent=1, ensure_ascii=False) + "\n")
     for l in lines:
         print(l, flush=True)
     print("%s tier=%s seed=%d evaluations=%d distinct_nontrivial=%d violations=%d known=%d wall=%.1fs" % (
